@@ -58,6 +58,28 @@ def weight_matrix(st, beta):
     return W
 
 
+def mixed_weight_matrix(st, params):
+    """Per-axis parameters: spline orders (weights from the model's ws) or Kaiser-Bessel betas (from the model's arguments)."""
+    from scipy.special import i0
+
+    cfg, win = st["cfg"], st["win"]
+    grid = tuple(cfg["grid"])
+    W = np.zeros((len(win), int(np.prod(grid))))
+    for j, axes in enumerate(win):
+        for combo in itertools.product(*[range(len(a)) for a in axes]):
+            idx, w = [], 1.0
+            for d, t in enumerate(combo):
+                e = axes[d][t]
+                idx.append(e["wrapped"])
+                if cfg["kernel"] == "kb":
+                    a = float(fr(e["arg"]))
+                    w *= float(i0(params[d] * np.sqrt(max(1 - a * a, 0.0))))
+                else:
+                    w *= float(fr(e["ws"][params[d]]))
+            W[j, np.ravel_multi_index(tuple(idx), grid)] += w
+    return W
+
+
 def check_state(job):
     sp = _sp()
     st, seed = job
@@ -104,6 +126,24 @@ def check_state(job):
                 exg = (W.T @ v).reshape(grid)
                 if tuple(gg.shape) != tuple(grid) or not np.allclose(gg, exg, atol=tol * max(1.0, float((np.abs(W.T) @ np.abs(v)).max())), rtol=0):
                     out.append((["C07"], "gridding_value", "gridding is not the transpose of the documented interpolation weights (coincident / wrapped contributions must add)"))
+        # a different parameter on every axis (spline orders / Kaiser-Bessel betas), interpolate and gridding
+        if nd >= 2 and par == params[0]:
+            mixed = [tuple((k_ + s_) % 3 for k_ in range(nd)) for s_ in range(3)] if kern == "spline" else [tuple(BETAS[(k_ + s_) % len(BETAS)] for k_ in range(nd)) for s_ in range(2)]
+            for pm in mixed:
+                Wm1 = mixed_weight_matrix(st, pm)
+                Wm = np.vstack([Wm1, Wm1])
+                gm = rs.randn(*grid) + 1j * rs.randn(*grid)
+                vm = rs.randn(2) + 1j * rs.randn(2)
+                try:
+                    ym = sp.interpolate(gm, coord, kernel=kern, width=tuple(widths), param=pm)
+                    ggm = sp.gridding(vm, coord, grid, kernel=kern, width=tuple(widths), param=pm)
+                except Exception as e:
+                    out.append((["C07"], "exception", "per-axis param %s raised %r" % (pm, e)))
+                    continue
+                if not np.allclose(ym, Wm @ gm.ravel(), atol=tol * max(1.0, float((np.abs(Wm) @ np.abs(gm.ravel())).max())), rtol=0):
+                    out.append((["C07"], "interpolate_value", "interpolate with per-axis param %s differs from the documented separable kernel sum" % (pm,)))
+                if not np.allclose(ggm.ravel(), Wm.T @ vm, atol=tol * max(1.0, float((np.abs(Wm.T) @ np.abs(vm)).max())), rtol=0):
+                    out.append((["C07"], "gridding_value", "gridding with per-axis param %s is not the transpose of the documented interpolation weights" % (pm,)))
         # batch axis
         gb = rs.randn(2, *grid) + 1j * rs.randn(2, *grid)
         yb = sp.interpolate(gb, coord, kernel=kern, width=tuple(widths), param=tuple([par] * nd))
